@@ -14,9 +14,9 @@ BASE_FIELDS = {"substream": ROF, "end_of_file": "int", "position": "int", "buffe
 # the property statement, not from the code
 CLASSES = {
     "StreamWrapper": dict(cls=STREAM + "StreamWrapper", fields={}, addr="i",
-                          wf="self.end_of_file > 0 and self.end_of_file <= len(self.substream.content)"),
+                          wf="self.end_of_file >= 0 and self.end_of_file <= len(self.substream.content)"),
     "StreamOffset": dict(cls=STREAM + "StreamOffset", fields={"offset": "int"}, addr="self.offset + i",
-                         wf="self.end_of_file > 0 and self.offset >= 0 and self.offset + self.end_of_file <= len(self.substream.content)"),
+                         wf="self.end_of_file >= 0 and self.offset >= 0 and self.offset + self.end_of_file <= len(self.substream.content)"),
     "SectorStream": dict(cls=SECTOR + "SectorStream", fields={"sector_length": "int"},
                          addr="(i // self.sector_length) * self.sector_length + i % self.sector_length",
                          wf="self.sector_length > 0 and self.end_of_file > 0 and self.end_of_file <= len(self.substream.content)"),
